@@ -271,7 +271,9 @@ theorem reorder_imul_chemorder (s s' : Cell) (m : List Nat) (mp : List (List Nat
     (hshape : List.Forall₂ (fun co r => r.length = co.length ∧ ∀ j ∈ r, j < co.length) s.chemorder mp)
     (h : reorder (imul s m) mp = .ok s') :
     s'.chemorder = newOrder (fun i => m.getD i 0) s.chemorder mp := by
-  simp only [reorder] at h
+  simp only [reorder, Onsager.C28.reorderZip] at h
+  split at h
+  · cases h
   split at h
   · cases h
   · split at h
